@@ -17,6 +17,8 @@ import (
 	"fmt"
 	"math/big"
 	"net"
+	"os"
+	"path/filepath"
 	"sync"
 	"sync/atomic"
 	"time"
@@ -208,6 +210,54 @@ func longRunRestart(res *core.Result, r *core.RNG) error {
 		if p := w.Close(); p != "" {
 			s.fail("server consistency check (CheckInvariants) panics after the long run: "+p, "checkinvariants-panic")
 		}
+	}
+	return nil
+}
+
+// (b6) the report log cannot be written while the SECOND, different report for a slot arrives (and
+// while an over-capacity report arrives): the slot's value still follows the report rules (banned).
+// Oracle only; the world is not restarted afterwards (its disk is behind its memory by design).
+func reportWriteFault(res *core.Result, r *core.RNG) error {
+	s, err := started(res, r, "report-fault", 900, false, 1000)
+	if err != nil {
+		return err
+	}
+	w := s.w
+	d := s.a.Devices[0]
+	ts := w.Now - 7
+	s.send(d, ts, 500)
+	s.send(d, ts+1, 600)
+	f := filepath.Join(w.Dir, "equipment-reports.dat")
+	bak := f + ".moved"
+	if os.Rename(f, bak) != nil {
+		return nil
+	}
+	os.Mkdir(f, 0755)
+	inject := func(slot uint32, p uint64) {
+		w.S.VerifInjectDatagram(refReportBytes(d.ID, slot, p, glow.Sign(refReportSigningBytes(d.ID, slot, p), d.K.Priv)))
+	}
+	inject(ts, 501)      // second, different report: the slot is banned
+	inject(ts+1, 999999) // over capacity: the slot is banned
+	inject(ts+2, 700)    // a first report: recorded
+	os.Remove(f)
+	os.Rename(bak, f)
+	res.Count("report.write-fault")
+	sn := w.S.VerifSnapshot()
+	have := map[uint32]uint64{}
+	for _, sl := range sn.Reports[d.ID] {
+		have[sn.Offset+uint32(sl.Index)] = sl.Report.PowerOutput
+	}
+	for _, c := range []struct {
+		slot uint32
+		want uint64
+		why  string
+	}{{ts, 1, "two different valid reports"}, {ts + 1, 1, "a report over 135% of the capacity after a valid one"}, {ts + 2, 700, "a single valid report"}} {
+		if have[c.slot] != c.want {
+			s.fail(fmt.Sprintf("while the report log could not be written: slot %d received %s and publishes %d (the report rules give %d)", c.slot, c.why, have[c.slot], c.want), "c02-write-fault-value")
+		}
+	}
+	if p := w.Close(); p != "" {
+		s.fail("server consistency check (CheckInvariants) panics after reports arrived while the log was unwritable: "+p, "checkinvariants-panic")
 	}
 	return nil
 }
